@@ -695,6 +695,42 @@ def hilbert_stub(y, N=None, axis=-1):
     hcache[hkey] = SymArray(out.copy(), C128)
     return SymArray(out, C128)
 
+
+# ---------------------------------------------------------------------------------------
+# numpy proxy for modules that build arrays with np.empty(...)/np.array([...]) and then fill them with computed values
+# (xeofs.single.pop): uninitialised / literal arrays must be able to hold symbolic entries
+
+
+class NumpyProxy:
+    def __getattr__(self, name):
+        return getattr(np, name)
+
+    def empty(self, shape, dtype=float, **kw):
+        from .ctx import active
+
+        if not active():
+            return np.empty(shape, dtype=dtype, **kw)
+        a = np.empty(shape, dtype=object)
+        a[...] = float("nan")
+        return SymArray(a, C128 if np.dtype(dtype).kind == "c" else F64)
+
+    def array(self, x, *a, **k):
+        has = [False]
+
+        def un(v):
+            if isinstance(v, SymArray):
+                has[0] = True
+                return v.a
+            if isinstance(v, (list, tuple)):
+                return [un(t) for t in v]
+            return v
+
+        y = un(x)
+        if not has[0]:
+            return np.array(x, *a, **k)
+        cplx = any(isinstance(t, Sym) and t.p.has_I() for t in np.array(y, dtype=object).flat)
+        return SymArray(np.array(y, dtype=object), C128 if cplx else F64)
+
 # ---------------------------------------------------------------------------------------
 # installation: module-attribute patches for names that xeofs modules imported directly
 
@@ -759,6 +795,12 @@ def installed(promax=True):
             patch(importlib.import_module(modname), "get_deterministic_sign_multiplier", sign_multiplier_stub)
         except Exception:
             pass
+    try:
+        import xeofs.single.pop as popmod
+
+        patch(popmod, "np", NumpyProxy())
+    except Exception:
+        pass
     try:
         import xeofs.utils.hilbert_transform as ht
 
